@@ -59,28 +59,33 @@ class _Tag:
 
 
 def _selection_env(fx, it, scores, micro, log):
+    """Stubs for the selection loop: apply_mask tags cell (0, 0) of the matrix it is given with the pattern number
+    (so that 'which matrix was masked with what, how often' can be read off), the scoring functions return scores[k]
+    for a matrix tagged k."""
+    def tag_of(m):
+        c = m[0][0]
+        return c if isinstance(c, tuple) and c and c[0] == 'masked' else None
+
     def apply_mask(matrix, mask_pattern, width, height, is_encoding_region):
-        log.append(('apply', id(matrix), mask_pattern.k))
-        matrix_tags[id(matrix)] = mask_pattern.k
-        matrix_objs[id(matrix)] = matrix
-    matrix_tags, matrix_objs = {}, {}
-    cnt = [0]
+        prev = matrix[0][0]
+        matrix[0][0] = ('masked', mask_pattern.k, prev)
+        log.append(('apply', mask_pattern.k, prev))
 
     def evaluate(m, width, height):
-        k = matrix_tags.get(id(m))
-        log.append(('eval', k))
-        cnt[0] += 1
-        return scores[k]
-    n = 4 if micro else 8
+        t = tag_of(m)
+        log.append(('eval', t[1] if t else None))
+        if t is None or isinstance(t[2], tuple):
+            raise Unknown('a candidate was evaluated unmasked or masked twice')
+        return scores[t[1]]
 
     def masks(is_micro):
         return tuple(_Tag(k) for k in range(4 if is_micro else 8))
     genv = encoder_env(fx.forest, it, apply_mask=apply_mask, evaluate_mask=evaluate, evaluate_micro_mask=evaluate,
                        get_data_mask_functions=masks, **reg.model_env())
-    return genv, matrix_tags, matrix_objs
+    return genv, tag_of
 
 
-@rule('C06', 'R2', 16, 'selection: lowest-numbered optimum (min for QR, max for Micro), candidates are row copies, result is the matching matrix')
+@rule('C06', 'R2', 16, 'selection: lowest-numbered optimum (min for QR, max for Micro); the matrix returned is masked exactly once, with the returned pattern')
 def r2(fx):
     fn = fx.fn('encoder', 'find_and_apply_best_mask')
     it = Interp(max_steps=20_000_000)
@@ -94,33 +99,35 @@ def r2(fx):
         n = 11 if micro else 21
         for sc in vectors[micro]:
             log = []
-            genv, tags, objs = _selection_env(fx, it, sc, micro, log)
+            genv, tag_of = _selection_env(fx, it, sc, micro, log)
             f = FuncVal(fn, genv, it)
             m = genv['make_matrix'](n, n)
             grid0 = m.grid()
             res = f(m, n, n)
             best = (max if micro else min)(sc)
             want = sc.index(best)
-            ok = isinstance(res, tuple) and len(res) == 2 and res[0] == want
-            # the matrix returned is the candidate that was masked with pattern `want`, and a distinct object per candidate
-            cand_ok = False
-            if ok:
-                rm = res[1]
-                rows = list(rm) if isinstance(rm, (tuple, list, reg.Matrix)) else None
-                applied = [x for x in log if x[0] == 'apply']
-                ids = {x[1] for x in applied}
-                cand_ok = (len(applied) == len(sc) and len(ids) == len(sc) and [x[2] for x in applied] == list(range(len(sc)))
-                           and rows is not None and objs.get([x[1] for x in applied if x[2] == want][0]) is not None
-                           and list(objs[[x[1] for x in applied if x[2] == want][0]]) == rows
-                           and m.grid() == grid0
-                           and all(all(r1 is not r0 for r0 in m.rows) for mid in ids for r1 in objs[mid]))
-            yield ob(f'{"Micro" if micro else "QR"} scores {sc}', ok and cand_ok, fn,
-                     got=f'returns pattern {res[0] if isinstance(res, tuple) else res}; candidates distinct row copies, input untouched, '
-                         f'result is the chosen candidate: {cand_ok}',
-                     want=f'pattern {want} (lowest-numbered {"maximum" if micro else "minimum"}) and its masked copy')
+            probs = []
+            if not (isinstance(res, tuple) and len(res) == 2):
+                probs.append(f'returns {res!r}')
+            else:
+                if res[0] != want:
+                    probs.append(f'returns pattern {res[0]}')
+                t = tag_of(res[1]) if res[1] is not None else None
+                if t is None:
+                    probs.append('the returned matrix is not masked')
+                elif t[1] != res[0] or isinstance(t[2], tuple):
+                    probs.append(f'the returned matrix is masked with pattern {t[1]}' + (' on top of another mask' if isinstance(t[2], tuple) else '')
+                                 + f' but pattern {res[0]} is returned')
+                elif t[2] != grid0[0][0]:
+                    probs.append('the returned matrix does not derive from the input matrix')
+                evals = [x[1] for x in log if x[0] == 'eval']
+                if sorted(evals) != list(range(len(sc))):
+                    probs.append(f'patterns evaluated: {evals}')
+            yield ob(f'{"Micro" if micro else "QR"} scores {sc}', not probs, fn, got='; '.join(probs) or f'pattern {want}, masked once with it',
+                     want=f'pattern {want} (lowest-numbered {"maximum" if micro else "minimum"}) and the matrix masked with it')
 
 
-@rule('C06', 'R3', 12, 'requested mask: exactly that predicate is applied to the matrix and that number is returned')
+@rule('C06', 'R3', 12, 'requested mask: exactly that predicate is applied once to the matrix and that number is returned')
 def r3(fx):
     fn = fx.fn('encoder', 'find_and_apply_best_mask')
     it = Interp(max_steps=20_000_000)
@@ -128,13 +135,15 @@ def r3(fx):
         n = 11 if micro else 21
         for k in range(4 if micro else 8):
             log = []
-            genv, tags, objs = _selection_env(fx, it, [0] * 8, micro, log)
+            genv, tag_of = _selection_env(fx, it, [0] * 8, micro, log)
             f = FuncVal(fn, genv, it)
             m = genv['make_matrix'](n, n)
+            c0 = m.grid()[0][0]
             res = f(m, n, n, k)
-            ok = isinstance(res, tuple) and res[0] == k and res[1] is m and log == [('apply', id(m), k)]
-            yield ob(f'{"Micro" if micro else "QR"} requested mask {k}', ok, fn, got=(res[0] if isinstance(res, tuple) else res, log),
-                     want=f'({k}, the given matrix), one apply_mask with predicate {k}, no evaluation')
+            t = tag_of(res[1]) if isinstance(res, tuple) and len(res) == 2 and res[1] is not None else None
+            ok = isinstance(res, tuple) and res[0] == k and t == ('masked', k, c0) and not [x for x in log if x[0] == 'eval']
+            yield ob(f'{"Micro" if micro else "QR"} requested mask {k}', ok, fn, got=(res[0] if isinstance(res, tuple) else res, t, log[:3]),
+                     want=f'({k}, matrix masked once with predicate {k}), no evaluation')
     enc = fx.fn('encoder', '_encode')
     a = single([s for s in enc.body if isinstance(s, ast.Assign) and 'find_and_apply_best_mask' in ast.unparse(s.value)], 'mask stage')
     b = pat.need(a.value, 'find_and_apply_best_mask(matrix, width, height, H_m)', 'mask stage call')
@@ -154,6 +163,14 @@ def _region_closure(fx, it, n):
     FuncVal(fn, genv, it)(m, n, n, 0)
     need('f' in got, 'apply_mask was not called with a region predicate')
     return got['f']
+
+
+@rule('C06', 'R3b', 3, 'a requested mask reaches _encode on every path of make_sequence (single-symbol shortcut and Structured Append)')
+def r3b(fx):
+    from . import p08
+    for o in p08.r2(fx):
+        if 'mask' in o.key:
+            yield o
 
 
 @rule('C06', 'R5', 10, 'apply_mask flips exactly the encoding region = complement of all function patterns')
